@@ -3,6 +3,8 @@ from __future__ import annotations
 
 import collections
 
+import copy
+
 import common as C
 import engine_common as E
 import engine_extract
@@ -216,10 +218,50 @@ def gen(rng):
     return sc
 
 
+def fixed_scenarios():
+    """`resumable` has two switches (a message cache exists; rewinding is enabled).  A fixed plan in which BOTH are off for
+    a stretch -- rewindable False, then clear_checkpoint (and the other order) -- with one pause / deferred pause /
+    suspension at EVERY arrival index."""
+    from engine_common import M, seq
+
+    out = []
+    for order in ("rw-then-clear", "clear-then-rw", "engine-flag"):
+        if order == "rw-then-clear":
+            sect = [M("rewindable", None, False), M("clear_checkpoint")]
+        elif order == "clear-then-rw":
+            sect = [M("clear_checkpoint"), M("rewindable", None, False)]
+        else:
+            sect = [M("clear_checkpoint")]
+        body = [M("open_run"), M("checkpoint"), M("set", "m1", 1, group="g"), M("wait", None, group="g")] + sect
+        body += [M("null"), M("set", "m1", 2, group="h"), M("wait", None, group="h"), M("null"), M("checkpoint"), M("null")]
+        if order != "engine-flag":
+            body += [M("rewindable", None, True), M("checkpoint"), M("null")]
+        body += [M("close_run")]
+        plan = {"k": "try", "body": seq(*body), "handler": None, "fin": seq(M("set", "m1", 0, group="z"), M("wait", None, group="z"))}
+        base = {"record_interruptions": False, "devices": {"m1": {"kind": "motor"}, "d1": {"kind": "det"}}, "plan": plan, "script": {},
+                "decisions": ["resume"] * 7 + ["halt"], "max_arrivals": 200}
+        n = len(E.run_scenario(E.number(copy.deepcopy(base)))["arrivals"])
+        for at in range(n):
+            for act in ({"a": "pause", "defer": False}, {"a": "pause", "defer": True}, {"a": "suspend", "fut": 0, "pre": None, "post": None, "just": None}):
+                sc = copy.deepcopy(base)
+                sc["script"] = {str(at): [act]}
+                if act["a"] == "suspend":
+                    sc["script"][str(at + 3)] = [{"a": "release", "fut": 0}]
+                out.append(E.number(sc))
+    return out
+
+
+_FIXED = None
+
+
 def run(ctx, model=True):
+    global _FIXED
     STATS.clear()
     _GEN.sweep_cap = 40 if (ctx.tier == "thorough" or ctx.deep) else 10
-    res = E.run_property(ctx, "C10", oracle, gen=gen, quick=160, thorough=4000, model=model)
+    if _FIXED is None:
+        _FIXED = fixed_scenarios()
+    extra = _FIXED if (ctx.tier == "thorough" or ctx.deep) else _FIXED[:: 3]
+    res = E.run_property(ctx, "C10", oracle, gen=gen, quick=160, thorough=4000, model=model, extra_scenarios=extra)
     for k, v in STATS.items():
         res.count(k, v)
     res.rule += " | C10: clear_checkpoint at varying positions (also followed by later checkpoints), try/finally around the plan body, one pause / suspension / deferred pause at EVERY later arrival index (sweeps) or several interruptions; judged = exactly one request accepted in state running after clear_checkpoint"
